@@ -112,23 +112,72 @@ Fixpoint protect2_aux (skip : nat) (s : string) : string :=
     end
   end.
 
-(** [fx7]: the repair of C03-F7 / C08-F2 (commit a779db8): both spellings of an encoded slash are
-    recognised.  [false] is the pinned tree: only "%2F".
-    [fx6] (below, [param_match]): the repair of C03-F6 / C08-F3 (commit 72ba5d4): under `off`
-    path_params see the decoded value. *)
-Definition protect (fx7 : bool) (v : string) : string :=
-  if fx7 then protect2_aux O v else replace_all v "%2F" marker.
+(** The variants of the slash-preserving decoder.  [D0]: the pinned tree (only "%2F" is
+    recognised, place-holder technique).  [D7]: after the repair of C03-F7 / C08-F2 (commit
+    a779db8): both spellings of an encoded slash are recognised.  [D8]: additionally the candidate
+    repair fixes/C03-F8.diff (= C08-F5): no place-holder; the value is cut at the encoded slashes,
+    the pieces are decoded and joined with "%2F".  The parameter is called [fx7] throughout. *)
+Inductive dec := D0 | D7 | D8.
+Definition is7 (d : dec) : bool := match d with D0 => false | _ => true end.
+Definition is8 (d : dec) : bool := match d with D8 => true | _ => false end.
+
+Definition protect (b7 : bool) (v : string) : string :=
+  if b7 then protect2_aux O v else replace_all v "%2F" marker.
 
 (** [containsEncodedSlash] (pinned: strings.Contains(path, "%2F")) *)
-Definition contains_enc_slash (fx7 : bool) (p : string) : bool :=
-  contains "%2F" p || (fx7 && contains "%2f" p).
+Definition contains_enc_slash (fx7 : dec) (p : string) : bool :=
+  contains "%2F" p || (is7 fx7 && contains "%2f" p).
+
+(** the "keep %2F" decoding with the place-holder *)
+Definition nd_old (b7 : bool) (v : string) : string :=
+  replace_all (path_unescape (protect b7 v)) marker "%2F".
+
+(** strings.Split(s, sep) for a non-empty [sep] ([skip] = bytes of an occurrence still to be dropped) *)
+Fixpoint split_on_aux (sep : string) (skip : nat) (s : string) : list string :=
+  match s with
+  | EmptyString => [EmptyString]
+  | String c r =>
+    match skip with
+    | S k => split_on_aux sep k r
+    | O => if prefix sep s then EmptyString :: split_on_aux sep (slen sep - 1) r
+           else match split_on_aux sep O r with
+                | x :: xs => String c x :: xs
+                | [] => [String c EmptyString]      (* never: the result is not empty *)
+                end
+    end
+  end.
+Definition split_on (sep s : string) : list string := split_on_aux sep O s.
+
+(** strings.Join *)
+Fixpoint join_with (sep : string) (l : list string) : string :=
+  match l with
+  | [] => EmptyString
+  | [x] => x
+  | x :: r => (x ++ sep ++ join_with sep r)%string
+  end.
+
+Fixpoint decode_parts (l : list string) : option (list string) :=
+  match l with
+  | [] => Some []
+  | x :: r => match pct_decode x, decode_parts r with
+              | Some d, Some ds => Some (d :: ds)
+              | _, _ => None
+              end
+  end.
+
+(** [unescapeExceptSlashes] of fixes/C03-F8.diff *)
+Definition nd_split (v : string) : string :=
+  match decode_parts (split_on "%2F" (replace_all v "%2f" "%2F")) with
+  | Some ds => join_with "%2F" ds
+  | None => EmptyString
+  end.
 
 (** the "keep %2F" decoding used by [unescape] and by [pathParamMatcher] *)
-Definition nd_unescape (fx7 : bool) (v : string) : string :=
-  replace_all (path_unescape (protect fx7 v)) marker "%2F".
+Definition nd_unescape (fx7 : dec) (v : string) : string :=
+  match fx7 with D8 => nd_split v | _ => nd_old (is7 fx7) v end.
 
 (** rule_impl.go [unescape] *)
-Definition unescape (fx7 : bool) (v : string) (h : slash) : string :=
+Definition unescape (fx7 : dec) (v : string) (h : slash) : string :=
   match h with SOn => path_unescape v | _ => nd_unescape fx7 v end.
 
 (* ------------------------------------------------------------------ createMethodMatcher *)
@@ -261,7 +310,7 @@ Definition hosts_match (fx1 : bool) (eng : engine) (hs : list tmdef) (q : reques
   else forallb (fun h => tm_match eng true h (q_host q)) hs.
 
 (** pathParamMatcher.Matches *)
-Definition param_match (fx6 fx7 : bool) (eng : engine) (sl : slash) (q : request) (keys vals : list string) (p : param) : mres :=
+Definition param_match (fx6 : bool) (fx7 : dec) (eng : engine) (sl : slash) (q : request) (keys vals : list string) (p : param) : mres :=
   match index_of (pp_name p) keys with
   | None => MNo
   | Some i =>
@@ -278,7 +327,7 @@ Definition param_match (fx6 fx7 : bool) (eng : engine) (sl : slash) (q : request
     end
   end.
 
-Fixpoint params_match (fx6 fx7 : bool) (eng : engine) (sl : slash) (q : request) (keys vals : list string) (ps : list param) : mres :=
+Fixpoint params_match (fx6 : bool) (fx7 : dec) (eng : engine) (sl : slash) (q : request) (keys vals : list string) (ps : list param) : mres :=
   match ps with
   | [] => MYes
   | p :: r => match param_match fx6 fx7 eng sl q keys vals p with
@@ -288,7 +337,7 @@ Fixpoint params_match (fx6 fx7 : bool) (eng : engine) (sl : slash) (q : request)
   end.
 
 (** compositeMatcher{sm, mm, hm, ppm}.Matches — in this order, first failure wins *)
-Definition route_matches (fx1 fx6 fx7 : bool) (eng : engine) (m : cmatcher) (q : request) (keys vals : list string) : mres :=
+Definition route_matches (fx1 fx6 : bool) (fx7 : dec) (eng : engine) (m : cmatcher) (q : request) (keys vals : list string) : mres :=
   if negb (scheme_match (cm_scheme m) q) then MNo else
   if negb (method_match (cm_methods m) q) then MNo else
   if negb (hosts_match fx1 eng (cm_hosts m) q) then MNo else
@@ -633,7 +682,7 @@ Definition load (fx3 fx4 : bool) (ds : list ruledef) : loaded :=
 Definition lookup_path (q : request) : string :=
   if String.eqb (q_rawpath q) "" then q_path q else q_rawpath q.
 
-Definition matcher_of (fx1 fx6 fx7 : bool) (eng : engine) (es : list centry) (q : request) : nat -> list string -> list string -> mres :=
+Definition matcher_of (fx1 fx6 : bool) (fx7 : dec) (eng : engine) (es : list centry) (q : request) : nat -> list string -> list string -> mres :=
   fun vid keys vals =>
     match nth_error es vid with
     | Some e => route_matches fx1 fx6 fx7 eng (ce_m e) q keys vals
@@ -661,14 +710,14 @@ Inductive outcome :=
 | ONone
 | ORule (rule : nat) (captures : list (string * string)) (exec_rejected : bool).
 
-Definition execute (fx7 : bool) (sl : slash) (q : request) (caps : list (string * string)) : list (string * string) * bool :=
+Definition execute (fx7 : dec) (sl : slash) (q : request) (caps : list (string * string)) : list (string * string) * bool :=
   match sl with
   | SOff => if contains_enc_slash fx7 (q_rawpath q) then (caps, true)
             else (map (fun kv => (fst kv, unescape fx7 (snd kv) sl)) caps, false)
   | _ => (map (fun kv => (fst kv, unescape fx7 (snd kv) sl)) caps, false)
   end.
 
-Definition serve (fx1 fx2 fx5 fx6 fx7 : bool) (eng : engine) (es : list centry) (t : tree) (q : request) : outcome * list call :=
+Definition serve (fx1 fx2 fx5 fx6 : bool) (fx7 : dec) (eng : engine) (es : list centry) (t : tree) (q : request) : outcome * list call :=
   match tree_find fx2 fx5 (matcher_of fx1 fx6 fx7 eng es q) t (lookup_path q) with
   | (LPanic, cs) => (OPanic, cs)
   | (LNone, cs) => (ONone, cs)
